@@ -11,15 +11,23 @@ From Coq Require Import List.
 From MX Require Import Backup.Model Backup.Proofs Backup.ProofsSave Backup.ProofsSession.
 Import ListNotations.
 
-(** any mix of zip and directory saves, any fault points, as long as a failed
-    directory save is not directly followed by another failed save *)
-Theorem C14_all : forall saves : list saveop,
-  calm saves -> BackupInv (run_saves saves).
+(** ALL sequences of zip and directory saves, each successful or failed at any
+    operation (rotation, mkdir, member writes, pickling, archive step, final move,
+    cleanup).  Unconditional since the /repo fix for D17 (a failed directory save
+    removes the tree it created); before it the statement needed "a failed directory
+    save is not directly followed by another failed save" and was refuted without *)
+Theorem C14_all : forall saves : list saveop, BackupInv (run_saves saves).
 Proof. exact backup_all. Qed.
 Print Assumptions C14_all.
 
-(** zip saves: ALL sequences of successful and failed saves; moreover no path
-    ever holds a partially written copy *)
+(** no path ever holds a partly written copy - in particular not <path>, and a zip
+    destination never holds a partially written archive *)
+Theorem C14_no_partial : forall saves : list saveop,
+  nopartial (run_saves saves) = true /\ is_partial (slot (run_saves saves) 0) = false.
+Proof. exact backup_nopartial. Qed.
+Print Assumptions C14_no_partial.
+
+(** zip saves (corollary, statement kept from before the repair) *)
 Theorem C14_zip_all : forall saves : list saveop,
   all_zip saves ->
   BackupInv (run_saves saves) /\ nopartial (run_saves saves) = true
@@ -27,24 +35,17 @@ Theorem C14_zip_all : forall saves : list saveop,
 Proof. exact backup_zip. Qed.
 Print Assumptions C14_zip_all.
 
-(** never two failing saves in a row (in particular: directory saves) *)
-Theorem C14_dir_single : forall saves : list saveop,
-  single_faults saves -> BackupInv (run_saves saves).
-Proof. exact backup_dir_single. Qed.
-Print Assumptions C14_dir_single.
-
-(** D17: with two consecutive failing directory saves the statement is false
-    (the last good copy ends at _BAK2) *)
-Theorem C14_dir_refuted :
-  run_saves d17_saves = [Partial 3 3; Partial 2 3; Good 1 Dir 9; Absent]
-  /\ ~ BackupInv (run_saves d17_saves).
-Proof. exact (conj d17_state d17_refutes). Qed.
-Print Assumptions C14_dir_refuted.
+(** D17's history (two consecutive failing directory saves) on the repaired tree:
+    the last good copy stays at _BAK1 *)
+Theorem C14_d17_repaired :
+  run_saves d17_saves = [Absent; Good 1 Dir 9; Absent; Absent].
+Proof. exact d17_state. Qed.
+Print Assumptions C14_d17_repaired.
 
 (** a save that does not fail puts the new generation at <path> and shifts the
-    earlier ones down in order ([rotate]: into the first hole, the last falls off) *)
+    earlier ones down in order ([rotate]: into the first hole, the last falls off),
+    after ANY history of saves *)
 Theorem C14_keeps_generations : forall (saves : list saveop) (f : fmt) (sh : list sop),
-  calm saves ->
   let s := run (map to_op saves) in
   exists n t, rotate (s_fs s) = Absent :: t
     /\ s_fs (step s (OSave true f sh None)) = Good (S (s_gen s)) f n :: t
